@@ -178,8 +178,36 @@ def determinism(argv):
                 print(f"DIVERGED {label}: {len(diff)} of {len(base)} jobs differ, e.g. {diff[:5]}")
             else:
                 print(f"identical {label}: {len(base)} job digests")
+    if not a.only or a.only == "C15":
+        bad += replay_equivalence(a.seed, min(a.jobs or 48, 48))
     print("determinism:", "OK" if not bad else f"{bad} comparison(s) diverged")
     return 0 if not bad else 1
+
+
+def replay_equivalence(seed, n):
+    """C15: executing the EXPLICIT plan (recorded yield points instead of the policy's PRNG)
+    must give the same event-log digest as the run it was recorded from."""
+    common.import_pest()
+    from . import c15, framework  # noqa: PLC0415
+
+    chk = c15.Check()
+    same, total, diff = 0, 0, []
+    for k in range(n):
+        plan = chk.make_job(seed, k, "quick")
+        if plan.get("kind") == "hashseed":
+            continue
+        run = framework.run_in_child(c15.execute_plan, plan, timeout=200)
+        run2 = framework.run_in_child(c15.execute_plan, c15.explicit_plan(plan, run), timeout=200)
+        total += 1
+        if run["digest"] == run2["digest"]:
+            same += 1
+        else:
+            diff.append(k)
+    if diff:
+        print(f"DIVERGED C15 explicit replay vs recorded run: jobs {diff[:10]}")
+        return 1
+    print(f"identical C15: explicit replay vs the policy-driven run it was recorded from: {same}/{total} job digests")
+    return 0
 
 
 def collect_digests(cid, seed, W, n_jobs, hs_offset):
